@@ -4,7 +4,7 @@ from vlib.core import write_cfg, validate_trace, count_lines
 LEVEL = "model_checking"
 META = {
     "technique": "TLA+ specs Ring.tla/Sets.tla model-checked by TLC (refinement invariant); all spec paths replayed on the Go containers; recorded Go histories trace-validated by TLC",
-    "level_text": "TLC proves, for capacities 0..4 and all Push/Clear sequences up to the bound, that the implementation-shaped ring state (buf, cur, full) refines the documented 'last min(k,n) values' model, and checks the set algebra (isolation of clones, Equal equivalence, ascending Values). Every path of those specs (all prefixes to the depth bound, plus simulated long paths) is replayed on RingBuffer, MapSet and SortedSliceSet and every documented query (Len, Current, Range, ReverseRange incl. every early stop, Has, Values, Equal, nil receivers) is compared with the spec's prediction; random real histories with larger capacities/values are validated back against the same TLA+ actions.",
+    "level_text": "TLC proves, for capacities 0..4 and all Push/Clear sequences up to the bound, that the implementation-shaped ring state (buf, cur, full) refines the documented 'last min(k,n) values' model, and checks the set algebra (isolation of clones, Equal equivalence, ascending Values). Every path of those specs (all prefixes to the depth bound, plus simulated long paths) is replayed on RingBuffer, MapSet and SortedSliceSet and every documented query (Len, Current, Range, ReverseRange incl. every early stop, Has, Values, Equal, nil receivers) is compared with the spec's prediction; at the end of every path the environment's stuttering step 'a Range call-back panics' is taken, followed by an Add/Delete round trip; a sample of the set paths is replayed with every abstract value standing for a block of 70 / 3000 / 66000 values; random real histories with larger capacities/values are validated back against the same TLA+ actions.",
     "level_note": "Assumes element type int and that the Go harness's projection (observe*) is faithful; bounded depth for the exhaustive part, sampling beyond it.",
 }
 
